@@ -30,6 +30,7 @@ type One struct {
 	Body     string // Release.Manifest without CRD chunks
 	Crds     []string
 	CrdPart  string // the CRD chunks, verbatim
+	CrdCanon string // the CRD chunks with the chunks of one chart in sorted order
 	Hooks    string // canonical JSON of Release.Hooks
 	Notes    string
 	Engine   string // canonical form of engine.Render's result
@@ -44,6 +45,7 @@ type Digests struct {
 	Err    string `json:"err"`
 	Body   string `json:"body"`
 	Crd    string `json:"crd"`
+	CrdCanon string `json:"crdCanon"`
 	Hooks  string `json:"hooks"`
 	Notes  string `json:"notes"`
 	Engine string `json:"engine"`
@@ -205,9 +207,10 @@ func (m *Materialised) identify(path, content string) ManEntry {
 }
 
 // parseManifest splits Release.Manifest at the "# Source:" markers renderResources writes.
-func (m *Materialised) parseManifest(man string) (entries []ManEntry, crds []string, body, crdPart string) {
+func (m *Materialised) parseManifest(man string) (entries []ManEntry, crds []string, body, crdPart, crdCanon string) {
 	locs := chunkRe.FindAllStringSubmatchIndex(man, -1)
 	var bodySB, crdSB strings.Builder
+	var crdChunks [][2]string
 	if len(locs) == 0 && strings.TrimSpace(man) != "" {
 		entries = append(entries, ManEntry{V: "?"})
 	}
@@ -225,8 +228,11 @@ func (m *Materialised) parseManifest(man string) (entries []ManEntry, crds []str
 			} else if strings.Contains(path, "charts/s2/") {
 				ch = "s2"
 			}
-			crds = append(crds, ch)
+			if len(crds) == 0 || crds[len(crds)-1] != ch { // one entry per chart (consecutive chunks of one chart)
+				crds = append(crds, ch)
+			}
 			crdSB.WriteString(man[loc[0]:end])
+			crdChunks = append(crdChunks, [2]string{ch, man[loc[0]:end]})
 			continue
 		}
 		bodySB.WriteString(man[loc[0]:end])
@@ -235,7 +241,20 @@ func (m *Materialised) parseManifest(man string) (entries []ManEntry, crds []str
 		}
 		entries = append(entries, m.identify(path, content))
 	}
-	return entries, crds, bodySB.String(), crdSB.String()
+	// canonical form of the CRD part: within each run of chunks of one chart, the chunks in sorted order
+	var canon strings.Builder
+	for i := 0; i < len(crdChunks); {
+		j := i
+		var run []string
+		for j < len(crdChunks) && crdChunks[j][0] == crdChunks[i][0] {
+			run = append(run, crdChunks[j][1])
+			j++
+		}
+		sort.Strings(run)
+		canon.WriteString(strings.Join(run, ""))
+		i = j
+	}
+	return entries, crds, bodySB.String(), crdSB.String(), canon.String()
 }
 
 func (m *Materialised) parseHooks(hs []*release.Hook) ([]HookEntry, string) {
@@ -346,7 +365,7 @@ func (o *One) fill(m *Materialised, rel *release.Release, err error) {
 		}
 	}
 	if rel != nil && err == nil {
-		o.Manifest, o.Crds, o.Body, o.CrdPart = m.parseManifest(rel.Manifest)
+		o.Manifest, o.Crds, o.Body, o.CrdPart, o.CrdCanon = m.parseManifest(rel.Manifest)
 		o.HookList, o.Hooks = m.parseHooks(rel.Hooks)
 		o.Notes = rel.Info.Notes
 	} else if rel != nil {
@@ -384,7 +403,7 @@ func engineRender(ch *chart.Chart, c Case) (string, []int) {
 }
 
 func (o One) DigestsFor(id string, incl bool) Digests {
-	return Digests{ID: id, Err: o.Err, Body: dig(o.Body), Crd: strings.Join(o.Crds, ",") + "|" + dig(o.CrdPart), Hooks: dig(o.Hooks), Notes: o.Notes, Engine: dig(o.Engine), Incl: incl}
+	return Digests{ID: id, Err: o.Err, Body: dig(o.Body), Crd: strings.Join(o.Crds, ",") + "|" + dig(o.CrdPart), CrdCanon: dig(o.CrdCanon), Hooks: dig(o.Hooks), Notes: o.Notes, Engine: dig(o.Engine), Incl: incl}
 }
 
 // Acc accumulates everything seen for one case over all renders, processes and host states.
@@ -397,6 +416,7 @@ type Acc struct {
 	hooks    map[string]bool
 	notes    map[string]bool
 	crd      map[string]bool
+	crdCanon map[string]bool
 	eng      map[string]bool
 	errs     map[string]bool
 	errTexts map[string]bool
@@ -413,7 +433,7 @@ type Acc struct {
 }
 
 func NewAcc(cl CaseLine) *Acc {
-	return &Acc{Line: cl, body: map[string]bool{}, hooks: map[string]bool{}, notes: map[string]bool{}, crd: map[string]bool{},
+	return &Acc{Line: cl, body: map[string]bool{}, hooks: map[string]bool{}, notes: map[string]bool{}, crd: map[string]bool{}, crdCanon: map[string]bool{},
 		eng: map[string]bool{}, errs: map[string]bool{}, errTexts: map[string]bool{}, crdsSeen: map[string][]string{}, bodyIncl: map[string]bool{}}
 }
 
@@ -426,6 +446,7 @@ func (a *Acc) AddDigests(d Digests) {
 	a.notes[d.Notes] = true
 	if d.Incl {
 		a.crd[d.Crd] = true
+		a.crdCanon[d.CrdCanon] = true
 		a.bodyIncl[d.Body] = true
 		cs := strings.SplitN(d.Crd, "|", 2)[0]
 		if _, ok := a.crdsSeen[cs]; !ok {
@@ -469,7 +490,7 @@ func sortedKeys(m map[string]bool) []string {
 func (a *Acc) Result(crdsFirst []string) ObsLine {
 	a.mu.Lock()
 	defer a.mu.Unlock()
-	o := Obs{Runs: a.Runs, DManifest: len(a.body), DHooks: len(a.hooks), DNotes: len(a.notes), DCrds: len(a.crd),
+	o := Obs{Runs: a.Runs, DManifest: len(a.body), DHooks: len(a.hooks), DNotes: len(a.notes), DCrds: len(a.crd), DCrdsCanon: len(a.crdCanon),
 		DEngine: len(a.eng), DErr: len(a.errs), DErrText: len(a.errTexts), ReuseSame: a.reuseDiff == "", RouteSame: a.routeDiff == "",
 		ReuseDiff: a.reuseDiff, RouteDiff: a.routeDiff, CfgReuseSame: a.cfgDiff == "", CfgReuseDiff: a.cfgDiff,
 		CLISame: a.cliDiff == "", CLIDiff: a.cliDiff,
@@ -857,6 +878,9 @@ func ObserveNoHooks(a *Acc, m *Materialised, seed int64) {
 	first := a.First
 	a.mu.Unlock()
 	if first == nil {
+		return
+	}
+	if len(first.HookList) == 0 { // no hook document: nothing DisableHooks could lose
 		return
 	}
 	r := rngFor(seed, "nohooks:"+a.Line.ID)
